@@ -1,5 +1,8 @@
 import IbModel.Util.Wire
 import IbModel.Model.Metrics
+import IbModel.Model.MetricsRun
+import IbModel.Driver.PipeParse
+import IbModel.Driver.D01
 /-!
 Driver handlers for C16.
 
@@ -7,16 +10,27 @@ Driver handlers for C16.
    ops: `i:<name>:<n>` increment, `s:<name>:<n>` set, `rc:<name>:<n>` register counter,
         `rg:<name>:<tag>` register gauge, `st` record_start, `en` record_end, `el` elapsed,
         `js` to_json, `sn` snapshot; an empty thread is `-`.
-   answer: `snap=<sorted name:val> el=T|F keys=<sorted keys> secs=<sections per call, per thread> complete=T|F`
-   (the schedule is replayed with the model's CURRENT `increment_counter`; if it ends early the
-    remaining threads are drained in thread order, `complete=F`).
+   answer: `snap=<sorted name:val> el=T|F json=<sorted key:val> secs=<sections per call, per thread> complete=T|F`
+   (`json` = the members of `to_json()` WITH their values: `c<n>`/`g<n>` for a stored metric, `T` for the
+    execution-time member; the schedule is replayed with the model's CURRENT `increment_counter`; if it ends
+    early the remaining threads are drained in thread order, `complete=F`).
 `STRESS init=<n|none> threads=<t> per=<p> amounts=<a,b,…>`  answer: `final=<n>`
-`MRUN coll=0|1 pre=<ops|-> runs=<ok|pe|ee>:<token>,…`   answer: `res=… coll=… el=… start=… keys=…`
-`MPOISON how=overflow|usermetric|none want=<token>`   answer: `res=ok:<token>`
+`MRUN coll=0|1 pre=<ops|-> runs=<ok|pe|ee>,… mode=<seq|par:N> canon=<seq|deep> src <rows> ; <steps>`
+   the pipeline is DESCRIBED (same grammar as `PIPE`); the model plans and executes it inside `runCollectProg`
+   answer: `coll=F res= <r> ;; <r> …` or `coll=T el=… start=… json=… snap=… take=T|F after=T|F res= <r> ;; …`
+   where `<r>` is the `PIPE` answer of an `ok` run (`OK <rows>` / `ERR …` / `PANIC` / `HANG`), `pe`, or `ee`.
+`MSLEEP sleep=<S> ticks=<w0.a.b.w1,…> mode=… canon=… src … ; …`  one run per tick group: the stamps are read at
+   `a`, `b`; the harness's own clock brackets the run at `w0`, `w1`; the closure sleeps `S`.
+   answer: `el=<in|below|above|none>,… jt=<T|F>,… res= <r> ;; …` (`in`: S ≤ elapsed ≤ w1 - w0; `jt`: the
+   `execution_time_ms` member of `to_json()` is the elapsed time)
+`MPOISON how=overflow|usermetric|none checks=0|1 mode=… canon=… src … ; …`   answer: `c=<n|-> res= <r>`
+`MOVF checks=0|1 init=<n|none|g> add=<v>`   one `increment_counter("c", v)` at the `u64` boundary;
+   answer: `call=ok|PANIC snap=<…>`
+`SMOKE`   answer: `ok` (every public call returns when made on one thread; oracle-only)
 `LOCKSITES`   answer: `sites=<method:locks,…> uncovered=0` (source scan of src/metrics.rs vs the model's table)
 -/
 namespace IB.D16
-open IB.Wire IB.Metrics
+open IB IB.Wire IB.Metrics
 
 def val? (s : String) : Option MetricVal :=
   if s.startsWith "c" then (parseNat? (s.drop 1).toString).map MetricVal.counter
@@ -66,6 +80,14 @@ def snapStr (c : Collector) : String :=
 
 def keysStr (c : Collector) : String := joinOr "," (sortStrs (jsonKeys c))
 
+def entryStr : JsonEntry → String
+  | .metric v => valStr v
+  | .execTime _ => "T"
+
+/-- members of `to_json()` with their values -/
+def jsonStr (c : Collector) : String :=
+  joinOr "," (sortStrs ((toJson c).map (fun kv => kv.1 ++ ":" ++ entryStr kv.2)))
+
 def secsStr (ths : List Thread) : String :=
   "/".intercalate (ths.map (fun t => joinOr "." (t.secs.reverse.map toString)))
 
@@ -83,7 +105,7 @@ def handleMetrics (args : List String) : String :=
       let s1 := run currentImpl sched s0
       let complete := s1.complete
       let s2 := run currentImpl (drainSchedule s1) s1
-      s!"snap={snapStr s2.c} el={boolStr (elapsed s2.c).isSome} keys={keysStr s2.c} secs={secsStr s2.ths} complete={boolStr complete}"
+      s!"snap={snapStr s2.c} el={boolStr (elapsed s2.c).isSome} json={jsonStr s2.c} secs={secsStr s2.ths} complete={boolStr complete}"
     | _, _, _ => "BAD-OP"
   | _, _, _ => "BAD-OP"
 
@@ -103,47 +125,142 @@ def handleStress (args : List String) : String :=
     | _, _, _, _ => "BAD-OP"
   | _, _, _, _ => "BAD-OP"
 
-/-- one modelled `run_collect`: `ok` (plan and execution succeed), `pe` (planning error), `ee` (execution error) -/
-def runOne (kind tok : String) (now : Nat) (p : Pipe Unit) : Option (String × Pipe Unit) :=
-  let go (b e : Bool) : String × Pipe Unit :=
-    let r := runCollect (ε := String) (χ := Unit) (ρ := String)
-      (fun _ => if b then .ok () else .error "pe")
-      (fun _ => if e then .ok tok else .error "ee") now (now + 1) p
-    (match r.1 with | .ok t => "ok:" ++ t | .error e => e, r.2)
+def mode? (m : String) : Option RunMode :=
+  if m == "seq" then some .seq
+  else if m.startsWith "par:" then (parseNat? (m.drop 4).toString).map RunMode.par
+  else none
+
+def renderRun (canon : String) : Except RunErr Part → String
+  | .ok rows => D01.render canon (.ok rows)
+  | .error (.engine e) => D01.render canon (.error e)
+  | .error .plan => "pe"
+  | .error .execType => "ee"
+
+/-- one modelled `run_collect`: `ok` (valid terminal, right element type), `pe` (planning error),
+    `ee` (execution error: wrong element type) -/
+def runOne (kind : String) (m : RunMode) (canon : String) (t0 t1 : Nat) (p : Pipe Graph) :
+    Option (String × Pipe Graph) :=
+  let go (tok tyok : Bool) : String × Pipe Graph :=
+    let r := runCollectProg m tok tyok t0 t1 p
+    (renderRun canon r.1, r.2)
   match kind with
   | "ok" => some (go true true)
   | "pe" => some (go false true)
   | "ee" => some (go true false)
   | _ => none
 
-def runsLoop : List String → Nat → Pipe Unit → List String → Option (List String × Pipe Unit)
+def runsLoop (m : RunMode) (canon : String) : List String → Nat → Pipe Graph → List String →
+    Option (List String × Pipe Graph)
   | [], _, p, acc => some (acc.reverse, p)
-  | r :: rs, now, p, acc =>
-    match r.splitOn ":" with
-    | [kind, tok] =>
-      match runOne kind tok now p with
-      | some (res, p') => runsLoop rs (now + 2) p' (res :: acc)
-      | none => none
-    | _ => none
+  | kind :: rs, now, p, acc =>
+    match runOne kind m canon now (now + 1) p with
+    | some (res, p') => runsLoop m canon rs (now + 2) p' (res :: acc)
+    | none => none
+
+def resStr (res : List String) : String := "res= " ++ " ;; ".intercalate res
 
 def handleMrun (args : List String) : String :=
-  match kv? "coll" args, kv? "pre" args, kv? "runs" args with
-  | some cflag, some pre, some runs =>
-    if args.length != 3 then "BAD-OP" else
-    match ops? pre, (cflag == "0" || cflag == "1") with
-    | some preOps, true =>
-      let c0 := preOps.foldl (fun c op => applyOp 0 op c) Collector.empty
-      let p0 : Pipe Unit := ⟨(), none⟩
-      let p1 := if cflag == "1" then p0.setMetrics c0 else p0
-      match runsLoop (runs.splitOn ",") 1 p1 [] with
-      | some (res, p2) =>
-        match p2.getMetrics with
-        | none => s!"res={",".intercalate res} coll=F"
+  match args with
+  | a0 :: a1 :: a2 :: rest =>
+    match kv? "coll" [a0], kv? "pre" [a1], kv? "runs" [a2], PipeParse.parseReq rest with
+    | some cflag, some pre, some runs, some q =>
+      match ops? pre, (cflag == "0" || cflag == "1"), mode? q.mode with
+      | some preOps, true, some m =>
+        let c0 := preOps.foldl (fun c op => applyOp 0 op c) Collector.empty
+        let p0 : Pipe Graph := ⟨⟨q.src, q.steps⟩, none⟩
+        let p1 := if cflag == "1" then p0.setMetrics c0 else p0
+        match runsLoop m q.canon (runs.splitOn ",") 1 p1 [] with
+        | some (res, p2) =>
+          match p2.getMetrics with
+          | none => s!"coll=F {resStr res}"
+          | some c =>
+            -- `start` is observed as: after one more `record_end`, is an elapsed time available?
+            let startSet := (elapsed (recordEnd 1000000 c)).isSome
+            let tk := p2.takeMetrics
+            s!"coll=T el={boolStr (elapsed c).isSome} start={boolStr startSet} json={jsonStr c} snap={snapStr c} take={boolStr tk.1.isSome} after={boolStr tk.2.getMetrics.isSome} {resStr res}"
+        | none => "BAD-OP"
+      | _, _, _ => "BAD-OP"
+    | _, _, _, _ => "BAD-OP"
+  | _ => "BAD-OP"
+
+def ticks? (s : String) : Option (List (Nat × Nat × Nat × Nat)) :=
+  (s.splitOn ",").mapM (fun g =>
+    match (g.splitOn ".").mapM parseNat? with
+    | some [w0, a, b, w1] => some (w0, a, b, w1)
+    | _ => none)
+
+def sleepLoop (m : RunMode) (canon : String) (sl : Nat) : List (Nat × Nat × Nat × Nat) → Pipe Graph →
+    List String → List String → List String → List String × List String × List String
+  | [], _, els, jts, res => (els.reverse, jts.reverse, res.reverse)
+  | (w0, a, b, w1) :: rest, p, els, jts, res =>
+    let r := runCollectProg m true true a b p
+    let (cls, jt) :=
+      match r.2.getMetrics with
+      | none => ("none", "F")
+      | some c =>
+        match elapsed c with
+        | none => ("none", boolStr (getJ execKey (toJson c)).isNone)
+        | some d =>
+          ((if d < sl then "below" else if d > w1 - w0 then "above" else "in"),
+           boolStr (getJ execKey (toJson c) == some (.execTime d)))
+    sleepLoop m canon sl rest r.2 (cls :: els) (jt :: jts) (renderRun canon r.1 :: res)
+
+def handleMsleep (args : List String) : String :=
+  match args with
+  | a0 :: a1 :: rest =>
+    match kv? "sleep" [a0], kv? "ticks" [a1], PipeParse.parseReq rest with
+    | some sl, some tk, some q =>
+      match parseNat? sl, ticks? tk, mode? q.mode with
+      | some sl, some tks, some m =>
+        let p : Pipe Graph := (⟨⟨q.src, q.steps⟩, none⟩ : Pipe Graph).setMetrics Collector.empty
+        let (els, jts, res) := sleepLoop m q.canon sl tks p [] [] []
+        s!"el={",".intercalate els} jt={",".intercalate jts} {resStr res}"
+      | _, _, _ => "BAD-OP"
+    | _, _, _ => "BAD-OP"
+  | _ => "BAD-OP"
+
+/-- `MPOISON`: a collector one of whose callers panicked inside a critical section (the `u64` overflow of
+    `count + value` with overflow checks on; a user metric whose `value()` panics during `snapshot()`) is
+    attached; the stored state is what `incAtomic64` says, and the run's result is computed by the program model. -/
+def handleMpoison (args : List String) : String :=
+  match args with
+  | a0 :: a1 :: rest =>
+    match kv? "how" [a0], kv? "checks" [a1], PipeParse.parseReq rest with
+    | some how, some ck, some q =>
+      match mode? q.mode, (ck == "0" || ck == "1") with
+      | some m, true =>
+        let coll : Option Collector :=
+          if how == "overflow" then
+            let c := setCounter "c" (u64Bound - 1) Collector.empty
+            some ((incAtomic64 (ck == "1") "c" 1 c).getD c)
+          else if how == "usermetric" then some (register "boom" (.other 0) Collector.empty)
+          else if how == "none" then some (setCounter "c" 1 Collector.empty)
+          else none
+        match coll with
         | some c =>
-          -- `start` is observed as: after one more `record_end`, is an elapsed time available?
-          let startSet := (elapsed (recordEnd 1000000 c)).isSome
-          s!"res={",".intercalate res} coll=T el={boolStr (elapsed c).isSome} start={boolStr startSet} keys={keysStr c} snap={snapStr c}"
-      | none => "BAD-OP"
+          let r := runCollectProg m true true 1 2 ((⟨⟨q.src, q.steps⟩, none⟩ : Pipe Graph).setMetrics c)
+          let cv := if how == "usermetric" then "-" else toString (counterVal "c" c)
+          s!"c={cv} {resStr [renderRun q.canon r.1]}"
+        | none => "BAD-OP"
+      | _, _ => "BAD-OP"
+    | _, _, _ => "BAD-OP"
+  | _ => "BAD-OP"
+
+/-- `MOVF`: one `increment_counter("c", add)` on a collector holding `c = init` -/
+def handleMovf (args : List String) : String :=
+  match kv? "checks" args, kv? "init" args, kv? "add" args with
+  | some ck, some ini, some add =>
+    if args.length != 3 || !(ck == "0" || ck == "1") then "BAD-OP" else
+    let c0 : Option Collector :=
+      if ini == "none" then some Collector.empty
+      else if ini == "g" then some (register "c" (.other 1) Collector.empty)
+      else (parseNat? ini).map (fun n => setCounter "c" n Collector.empty)
+    match c0, parseNat? add with
+    | some c, some v =>
+      if v ≥ u64Bound || counterVal "c" c ≥ u64Bound then "BAD-OP" else
+      match incAtomic64 (ck == "1") "c" v c with
+      | some c' => s!"call=ok snap={snapStr c'}"
+      | none => s!"call=PANIC snap={snapStr c}"
     | _, _ => "BAD-OP"
   | _, _, _ => "BAD-OP"
 
@@ -152,18 +269,12 @@ def handleLockSites (args : List String) : String :=
   if !args.isEmpty then "BAD-OP" else
   s!"sites={joinOr "," (lockSites.map (fun kv => kv.1 ++ ":" ++ toString kv.2))} uncovered=0"
 
-/-- `MPOISON how=<…> want=<token>`: a collector that survived a panic of one of its callers is attached;
-    the modelled `run_collect` returns the pipeline's own result (`metrics_do_not_affect_result`). -/
-def handleMpoison (args : List String) : String :=
-  match kv? "how" args, kv? "want" args with
-  | some how, some tok =>
-    if args.length != 2 || !(["overflow", "usermetric", "none"].contains how) then "BAD-OP" else
-    match runOne "ok" tok 1 ⟨(), some Collector.empty⟩ with
-    | some (res, _) => "res=" ++ res
-    | none => "BAD-OP"
-  | _, _ => "BAD-OP"
+/-- `SMOKE`: judged by the harness oracle only (every call returns, on one thread); the model has no
+    notion of a call that does not return -/
+def handleSmoke (args : List String) : String := if args.isEmpty then "ok" else "BAD-OP"
 
 def handlers : List (String × (List String → String)) :=
-  [("LOCKSITES", handleLockSites), ("MPOISON", handleMpoison), ("METRICS", handleMetrics), ("STRESS", handleStress), ("MRUN", handleMrun)]
+  [("LOCKSITES", handleLockSites), ("MPOISON", handleMpoison), ("METRICS", handleMetrics), ("STRESS", handleStress),
+   ("MRUN", handleMrun), ("MSLEEP", handleMsleep), ("MOVF", handleMovf), ("SMOKE", handleSmoke)]
 
 end IB.D16
